@@ -1292,7 +1292,11 @@ class Quaternion(np.ndarray):
         q**a : numpy.ndarray
             Quaternion :math:`\\mathbf{q}` to the power of ``a``
         """
-        return np.e**(a*self.logarithm)
+        # Quaternion exponential of a*log(q) (not an element-wise power)
+        a_log_q = a*self.logarithm
+        if not a_log_q.any():
+            return np.array([1.0, 0.0, 0.0, 0.0])
+        return Quaternion(a_log_q, versor=False).exponential
 
     def is_pure(self) -> bool:
         """
